@@ -12,5 +12,6 @@ CONSTANTS
   IfN = "eq0"
   Loop = "for"
   Delete = TRUE
+  NRead = "locked"
 INVARIANTS TypeOK NoSpurious AtMostOncePerReport NoLost MutexInv WakeInv NoLostWakeup
 
